@@ -108,6 +108,10 @@ def build_templates(seed, n_rand, n_pert_each):
                     ("blob", "Pt :: blob {\n    x: int,\n    y: int,\n}\norigin :: Pt { x: ?a, y: origin.x }\nstart :: fn do\n    print(origin.y)\nend\n"),
                     ("call_argument", "twice :: fn f: fn int -> int -> fn int -> int do\n    ret fn n: int -> int do ret f(f(n)) end\nend\nstep : fn int -> int : twice(step)\nstart :: fn do\n    print(step(?a))\nend\n")):
         base.append({"name": "global_initialiser_reads_itself_" + n, "no_perturb": True, "role": "global initialiser that reads the global it initialises (%s)" % n, "dom": {"a": (0, 3)}, "text": text})
+    for n, text in (("if", "er :: fn c: bool -> int do\n    if c do\n        ret \"negative\"\n    else\n        2\n    end\nend\nstart :: fn do\n    print(er(?a == 0) + 1)\nend\n"),
+                    ("case", "Ev :: enum\n    A int,\n    B,\nend\ner :: fn e: Ev -> int do\n    case e do\n        A v ->\n            ret (v, v)\n        end\n        else\n            3\n        end\n    end\nend\nstart :: fn do\n    print(er(Ev.A ?a) * 2)\nend\n"),
+                    ("inferred", "er :: fn c ->\n    if c do\n        ret \"negative\"\n    else\n        2\n    end\nend\nstart :: fn do\n    k: int = er(?a == 0)\n    print(k + 1)\nend\n")):
+        base.append({"name": "early_return_of_another_type_in_trailing_" + n, "no_perturb": True, "role": "early ret of another type inside the trailing %s expression of a block" % n, "dom": {"a": (0, 1)}, "text": text})
     base.append({"name": "if_value_with_a_branch_that_has_no_value", "no_perturb": True, "role": "if used as a value, one branch ends in a statement", "dom": {"a": (0, 4)},
                  "text": "start :: fn do\n    y := 0\n    x :: if ?a > 2 do 1 else y = 2 end\n    print(x + 1)\nend\n"})
     base.append({"name": "function_parameter_used_at_two_types", "no_perturb": True, "role": "function-typed parameter with wildcard type called at two types", "dom": {"a": (0, 3)},
